@@ -955,6 +955,49 @@ fn readings(r: &mut Report, name: &str, n: usize, now: &dyn Fn(usize) -> Tv) {
     }
 }
 
+/// the kernel's own CLOCK_MONOTONIC reading: the `syscall` instruction, not libc's vDSO shortcut
+fn kernel_mono() -> i128 {
+    let mut ts: libc::timespec = unsafe { core::mem::zeroed() };
+    let rc = unsafe { libc::syscall(libc::SYS_clock_gettime, libc::CLOCK_MONOTONIC, &mut ts as *mut libc::timespec) };
+    assert_eq!(rc, 0);
+    ts.tv_sec as i128 * G + ts.tv_nsec as i128
+}
+
+/// Clock identity on the system-call path of this build (tiny-std without feature `vdso`): every
+/// reading must lie between the kernel's CLOCK_MONOTONIC readings taken before and after it.
+/// (The vDSO build of the same functions is sandwiched by the probe of lib/steps_clock.py.)
+fn sandwich(r: &mut Report, name: &str, n: usize, reading: &dyn Fn() -> Option<Tv>) {
+    let mut before = kernel_mono();
+    for i in 0..n {
+        r.eval();
+        r.nontrivial_unique();
+        let got = catch(reading);
+        let after = kernel_mono();
+        let replay = json!({"group": "clock", "what": name});
+        match got {
+            Err(p) => r.violation(&format!("C19:syscall:{name}:panic"), format!("{name}: reading #{i} panicked: {p}"), replay),
+            Ok(None) => r.violation(&format!("C19:syscall:{name}:none-for-past-reading"), format!("{name}() of an earlier reading returned None (call #{i})"), replay),
+            Ok(Some(v)) => {
+                let t = tns(v);
+                if t < before || t > after {
+                    r.outcome(&format!("sandwich:{name}:OUTSIDE"));
+                    r.violation(
+                        &format!("C19:syscall:{name}:reading-outside-kernel-sandwich"),
+                        format!(
+                            "{name} (system-call path, build without feature vdso): reading #{i} = {t} ns is {} the kernel's CLOCK_MONOTONIC readings around it (before {before} ns, after {after} ns): successive readings of the monotonic clock decrease",
+                            if t < before { "earlier than" } else { "later than" }
+                        ),
+                        replay,
+                    );
+                } else {
+                    r.outcome(&format!("sandwich:{name}:inside-kernel-sandwich"));
+                }
+            }
+        }
+        before = after;
+    }
+}
+
 static SIGNALS_SEEN: std::sync::atomic::AtomicUsize = std::sync::atomic::AtomicUsize::new(0);
 extern "C" fn on_usr1(_: libc::c_int) {
     SIGNALS_SEEN.fetch_add(1, std::sync::atomic::Ordering::SeqCst);
@@ -1022,6 +1065,22 @@ fn clock(_args: &Args) -> Report {
             }
         }
     }
+    // clock identity of the system-call path: kernel reading, library reading, kernel reading
+    {
+        const NS: usize = 20_000;
+        let plus = |t: Tv, e: Duration| -> Tv {
+            let total = tns(t) + e.as_nanos() as i128;
+            Tv { s: (total / G) as i64, n: (total % G) as i64 }
+        };
+        sandwich(&mut r, "Instant::now", NS, &|| Some(Instant::now().raw()));
+        sandwich(&mut r, "MonotonicInstant::now", NS, &|| Some(MonotonicInstant::now().raw()));
+        sandwich(&mut r, "rusl::clock_get_monotonic_time", NS, &|| Some(ts_tv(&rusl::time::clock_get_monotonic_time())));
+        let i0 = Instant::now();
+        let m0 = MonotonicInstant::now();
+        sandwich(&mut r, "Instant::elapsed", NS, &|| i0.elapsed().map(|e| plus(i0.raw(), e)));
+        sandwich(&mut r, "MonotonicInstant::elapsed", NS, &|| Some(plus(m0.raw(), m0.elapsed())));
+        r.bound("sandwiched_readings_per_entry_point", NS);
+    }
     // sleep against the libc stopwatch
     for (d, reps) in [(Duration::ZERO, 200), (Duration::from_micros(1), 200), (Duration::from_millis(1), 30), (Duration::from_millis(20), 8)] {
         for _ in 0..reps {
@@ -1057,7 +1116,9 @@ fn clock(_args: &Args) -> Report {
         "SAMPLED, not exhaustive (real time cannot be enumerated; the guarantee is the kernel's): {N} consecutive readings each of Instant::now, MonotonicInstant::now, rusl clock_get_monotonic_time and of the three interleaved \
          must never decrease (exact (sec,nsec) comparison); 10000 successive elapsed() of one earlier Instant/MonotonicInstant must be Some and never decrease; tiny_std::thread::sleep(d) for d in {{0, 1us, 1ms, 20ms}} \
          (200/200/30/8 repetitions) and 5 x sleep(20ms) interrupted by three real SIGUSR1 must come back no earlier than d by libc clock_gettime(CLOCK_MONOTONIC) read before and after. \
-         A case is one reading compared with its predecessor, or one sleep. NOT covered here: the exhaustive virtual-clock enumeration of EINTR scripts for sleep (needs the syscall seam S2, built separately)."
+         Clock identity on the system-call path (this build has no vdso feature): 20000 readings each of Instant::now, MonotonicInstant::now, rusl clock_get_monotonic_time, Instant::elapsed and MonotonicInstant::elapsed (as base+elapsed) \
+         must lie between the kernel's CLOCK_MONOTONIC readings (raw clock_gettime system call) taken before and after them; the vDSO build of the same readers is covered by the probe step of lib/steps_clock.py. \
+         A case is one reading compared with its predecessor or with its kernel sandwich, or one sleep. NOT covered here: the exhaustive virtual-clock enumeration of EINTR scripts for sleep (needs the syscall seam S2, built separately)."
     );
     r.bound("readings_per_api", N);
     r.bound("sleep_durations_ns", json!([0, 1_000, 1_000_000, 20_000_000]));
